@@ -258,6 +258,10 @@ func (m *Machine) fmtArg(fr *frame, verb byte, arg value, lenient bool) value {
 			return strconv.FormatFloat(x, 'f', 6, 64)
 		}
 	case *Term:
+		if m.LenientSprintf {
+			m.stubsHit["sprintf: symbolic number rendered as a placeholder"]++
+			return "<sym>"
+		}
 		return giveUp("symbolic scalar")
 	}
 	if lenient {
